@@ -200,6 +200,7 @@ type Engine struct {
 	missingAnchors map[string]bool
 	sliceBindActive bool
 	ctWriteCache  map[*ssa.Function]map[int]bool
+	initMem       map[*Region]Cell // memory allocated by package initialisers
 	ctWriteBusy   map[*ssa.Function]bool
 	groundDone    bool
 	groundFacts   []*Term
@@ -451,6 +452,10 @@ func (en *Engine) regionCell(st *State, r *Region) Cell {
 			c = en.globalCell(st, r)
 			st.mem[r] = c
 			return c
+		}
+		if ic, ok := en.initMem[r]; ok {
+			st.mem[r] = ic
+			return ic
 		}
 		fail("region %s has no contents", r.name)
 	}
